@@ -89,7 +89,7 @@ func TestVerifC28Relay(t *testing.T) {
 					targets = append(targets, i)
 				}
 			}
-			targets = append(targets, 4)
+			targets = append(targets, c28X)
 			tg := targets[x.Choose(len(targets))]
 			handler := []string{"onRelayConnChain", "onRelay"}[x.Choose(2)]
 			var others []int // nodes that are neither self nor the target
@@ -186,7 +186,7 @@ func TestVerifC28Relay(t *testing.T) {
 					svc.routeTable.SavePaths(cur)
 				}
 				req := &pb.RouteRelayReq{
-					Src:             c28Idents[4].overlay.Bytes(),
+					Src:             c28Idents[c28X].overlay.Bytes(),
 					SrcMode:         aurora.NewModel().SetMode(aurora.FullNode).Bv.Bytes(),
 					Dest:            target.Bytes(),
 					ProtocolName:    []byte("test"),
@@ -196,7 +196,7 @@ func TestVerifC28Relay(t *testing.T) {
 				for _, v := range via {
 					req.Paths = append(req.Paths, c28Idents[v].overlay.Bytes())
 				}
-				from := c28Idents[4].overlay
+				from := c28Idents[c28X].overlay
 				if len(via) > 0 {
 					from = c28Idents[via[len(via)-1]].overlay
 				}
